@@ -104,6 +104,16 @@ func (m *MapDataProvider[T]) GetUnderlying() any {
 	return m.M
 }
 
+// SourceTag returns the struct tag this provider resolves field names with (nil: zog tag / schema key only)
+func (m *MapDataProvider[T]) SourceTag() *string {
+	return m.tag
+}
+
+// SetSourceTag makes the provider resolve field names with the given struct tag
+func (m *MapDataProvider[T]) SetSourceTag(tag *string) {
+	m.tag = tag
+}
+
 func NewMapDataProvider[T any](m map[string]T, tag *string) DataProvider {
 	if len(m) == 0 {
 		return nil
